@@ -518,6 +518,9 @@ fn store_field(mid: usize, src_raw: usize, src_id: u64, f: usize, val_raw: usize
     let update_model = |w: &mut World| {
         let mut unmoved_holder = false;
         if let Some(o) = w.objs.get_mut(&src_id) {
+            if crate::world::watch_id() != 0 && o.fields[f] == crate::world::watch_id() {
+                eprintln!("WATCHID field {} of object {} ({:#x}, space {}) overwritten {} -> {} by mutator {} mode {}", f, src_id, o.addr, o.space, o.fields[f], val_id, mid, mode);
+            }
             o.fields[f] = val_id;
             unmoved_holder = matches!(o.sem, SEM_IMMORTAL | SEM_NONMOVING);
         }
